@@ -63,6 +63,8 @@ func allVariants() []variant {
 		{Variant: byName["12-clientauth"], full: true, kx: "ecdhe", maxSteps: 6},
 		{Variant: byName["12-cid"], full: true, kx: "ecdhe", maxSteps: 6},
 		{Variant: byName["12-mtu100"], full: true, kx: "ecdhe", maxSteps: 20},
+		// a server that accepts DTLS 1.2 and 1.3 decides the version from the first ClientHello: its own code path
+		{Variant: checks.Variant{Name: "12-sdual", C: world.Cfg{MinV: 12, MaxV: 12}, S: world.Cfg{MinV: 12, MaxV: 13}}, full: true, kx: "ecdhe", maxSteps: 6},
 		{Variant: byName["13-direct"], full: true, kx: "13", maxSteps: 8},
 		{Variant: byName["13-hrr"], full: true, kx: "13", maxSteps: 11},
 		// one variant per remaining record-protection path ("for every cipher suite's decrypt path")
